@@ -66,8 +66,17 @@ type setup struct {
 	cumul     bool
 	isInt     bool
 	reuse     bool               // ONE ResourceMetrics reused across all collections + a neighbour instrument "a"
-	auxAgg    metric.Aggregation // aggregation of the neighbour instrument (same kind as agg, NoMinMax)
+	auxAgg    metric.Aggregation // aggregation of the neighbour instrument (nil: default aggregation of its kind)
+	auxSum    bool               // the neighbour is a Counter (its slot holds a metricdata.Sum: type assertion on reuse misses)
+	kind      int                // instrument kind of "h", see kindNames
+	cancelled bool               // record with an already cancelled context
+	junkLater []float64          // caller-owned boundary slice, overwritten once the view / option has been built
 }
+
+// Instrument kinds "h" is created as.  The sum is not collected for kinds 2, 3, 5 (pipeline.go).
+var kindNames = []string{"Histogram", "Counter", "UpDownCounter", "Gauge", "ObservableCounter", "ObservableGauge"}
+
+func kindNoSum(k int) bool { return k == 2 || k == 3 || k == 5 }
 
 type inst struct {
 	r  *metric.ManualReader
@@ -77,7 +86,13 @@ type inst struct {
 	// "h" slides into that slot (and its data-point memory) in a delta cycle where "a" has none.
 	af ometric.Float64Histogram
 	ai ometric.Int64Histogram
+	ac ometric.Int64Counter
 	rm *metricdata.ResourceMetrics
+	isInt bool
+	// recF/recI record one measurement on "h" (x: under the second attribute set), whatever its kind;
+	// observable kinds buffer and report from their callback during the next collect.
+	recF func(v float64, x bool)
+	recI func(v int64, x bool)
 }
 
 var attrX = ometric.WithAttributes(attribute.String("k", "x"))
@@ -91,10 +106,7 @@ func newInst(s setup) inst {
 	if s.agg != nil && s.viaReader {
 		a := s.agg
 		ropts = append(ropts, metric.WithAggregationSelector(func(k metric.InstrumentKind) metric.Aggregation {
-			if k == metric.InstrumentKindHistogram {
-				return a
-			}
-			return metric.DefaultAggregationSelector(k)
+			return a // every instrument kind accepts a histogram aggregation; "a" has its own view
 		}))
 	}
 	r := metric.NewManualReader(ropts...)
@@ -102,32 +114,118 @@ func newInst(s setup) inst {
 	if s.agg != nil && !s.viaReader {
 		popts = append(popts, metric.WithView(metric.NewView(metric.Instrument{Name: "h"}, metric.Stream{Aggregation: s.agg})))
 	}
-	if s.reuse && s.auxAgg != nil {
+	if s.reuse && s.auxAgg != nil && !s.auxSum {
 		popts = append(popts, metric.WithView(metric.NewView(metric.Instrument{Name: "a"}, metric.Stream{Aggregation: s.auxAgg})))
 	}
 	mp := metric.NewMeterProvider(popts...)
 	m := mp.Meter("c07")
-	in := inst{r: r}
+	if s.agg != nil && !s.viaReader { // NewView must have copied the boundaries by now (a selector is asked later)
+		for i := range s.junkLater {
+			s.junkLater[i] = math.NaN()
+		}
+	}
+	in := inst{r: r, isInt: s.isInt}
 	if s.reuse {
 		in.rm = &metricdata.ResourceMetrics{}
-		if s.isInt {
+		if s.auxSum {
+			in.ac, _ = m.Int64Counter("a")
+		} else if s.isInt {
 			in.ai, _ = m.Int64Histogram("a")
 		} else {
 			in.af, _ = m.Float64Histogram("a")
 		}
 	}
-	if s.isInt {
+	rctx := ctx
+	if s.cancelled {
+		c, cancel := context.WithCancel(ctx)
+		cancel()
+		rctx = c
+	}
+	opt := func(x bool) []ometric.RecordOption {
+		if x {
+			return []ometric.RecordOption{attrX}
+		}
+		return nil
+	}
+	aopt := func(x bool) []ometric.AddOption {
+		if x {
+			return []ometric.AddOption{attrX}
+		}
+		return nil
+	}
+	oopt := func(x bool) []ometric.ObserveOption {
+		if x {
+			return []ometric.ObserveOption{attrX}
+		}
+		return nil
+	}
+	type fobs struct {
+		v float64
+		x bool
+	}
+	type iobs struct {
+		v int64
+		x bool
+	}
+	var fbuf []fobs
+	var ibuf []iobs
+	fcb := func(_ context.Context, o ometric.Float64Observer) error {
+		for _, e := range fbuf {
+			o.Observe(e.v, oopt(e.x)...)
+		}
+		fbuf = fbuf[:0]
+		return nil
+	}
+	icb := func(_ context.Context, o ometric.Int64Observer) error {
+		for _, e := range ibuf {
+			o.Observe(e.v, oopt(e.x)...)
+		}
+		ibuf = ibuf[:0]
+		return nil
+	}
+	in.recF = func(v float64, x bool) { fbuf = append(fbuf, fobs{v, x}) }
+	in.recI = func(v int64, x bool) { ibuf = append(ibuf, iobs{v, x}) }
+	switch {
+	case s.isInt && s.kind == 0:
 		var o []ometric.Int64HistogramOption
 		if s.instBound != nil {
 			o = append(o, ometric.WithExplicitBucketBoundaries(s.instBound...))
 		}
 		in.hi, _ = m.Int64Histogram("h", o...)
-	} else {
+		in.recI = func(v int64, x bool) { in.hi.Record(rctx, v, opt(x)...) }
+	case !s.isInt && s.kind == 0:
 		var o []ometric.Float64HistogramOption
 		if s.instBound != nil {
 			o = append(o, ometric.WithExplicitBucketBoundaries(s.instBound...))
 		}
 		in.hf, _ = m.Float64Histogram("h", o...)
+		in.recF = func(v float64, x bool) { in.hf.Record(rctx, v, opt(x)...) }
+	case s.isInt && s.kind == 1:
+		c, _ := m.Int64Counter("h")
+		in.recI = func(v int64, x bool) { c.Add(rctx, v, aopt(x)...) }
+	case !s.isInt && s.kind == 1:
+		c, _ := m.Float64Counter("h")
+		in.recF = func(v float64, x bool) { c.Add(rctx, v, aopt(x)...) }
+	case s.isInt && s.kind == 2:
+		c, _ := m.Int64UpDownCounter("h")
+		in.recI = func(v int64, x bool) { c.Add(rctx, v, aopt(x)...) }
+	case !s.isInt && s.kind == 2:
+		c, _ := m.Float64UpDownCounter("h")
+		in.recF = func(v float64, x bool) { c.Add(rctx, v, aopt(x)...) }
+	case s.isInt && s.kind == 3:
+		c, _ := m.Int64Gauge("h")
+		in.recI = func(v int64, x bool) { c.Record(rctx, v, opt(x)...) }
+	case !s.isInt && s.kind == 3:
+		c, _ := m.Float64Gauge("h")
+		in.recF = func(v float64, x bool) { c.Record(rctx, v, opt(x)...) }
+	case s.isInt && s.kind == 4:
+		_, _ = m.Int64ObservableCounter("h", ometric.WithInt64Callback(icb))
+	case !s.isInt && s.kind == 4:
+		_, _ = m.Float64ObservableCounter("h", ometric.WithFloat64Callback(fcb))
+	case s.isInt:
+		_, _ = m.Int64ObservableGauge("h", ometric.WithInt64Callback(icb))
+	default:
+		_, _ = m.Float64ObservableGauge("h", ometric.WithFloat64Callback(fcb))
 	}
 	return in
 }
@@ -170,7 +268,9 @@ type hobs struct {
 	counts        []uint64
 	count         uint64
 	min, max, sum string // Coq num
-	ok            bool
+	ok            bool // data point found
+	mm, mmAny     bool // both / any extremum defined
+	sumZero       bool
 }
 
 func (o hobs) coq() string {
@@ -187,7 +287,7 @@ func obsExplicit(d any) hobs {
 		p := h.DataPoints[k]
 		mi, ok1 := p.Min.Value()
 		ma, ok2 := p.Max.Value()
-		return hobs{bounds: p.Bounds, counts: p.BucketCounts, count: p.Count, min: fnum(mi), max: fnum(ma), sum: fnum(p.Sum), ok: ok1 && ok2}
+		return hobs{bounds: p.Bounds, counts: p.BucketCounts, count: p.Count, min: fnum(mi), max: fnum(ma), sum: fnum(p.Sum), ok: true, mm: ok1 && ok2, mmAny: ok1 || ok2, sumZero: p.Sum == 0}
 	case metricdata.Histogram[int64]:
 		k := pickEmpty(len(h.DataPoints), func(i int) int { return h.DataPoints[i].Attributes.Len() })
 		if k < 0 {
@@ -196,7 +296,7 @@ func obsExplicit(d any) hobs {
 		p := h.DataPoints[k]
 		mi, ok1 := p.Min.Value()
 		ma, ok2 := p.Max.Value()
-		return hobs{bounds: p.Bounds, counts: p.BucketCounts, count: p.Count, min: inum(mi), max: inum(ma), sum: inum(p.Sum), ok: ok1 && ok2}
+		return hobs{bounds: p.Bounds, counts: p.BucketCounts, count: p.Count, min: inum(mi), max: inum(ma), sum: inum(p.Sum), ok: true, mm: ok1 && ok2, mmAny: ok1 || ok2, sumZero: p.Sum == 0}
 	}
 	return hobs{}
 }
@@ -209,6 +309,8 @@ type eobs struct {
 	zero, count    uint64
 	min, max, sum  string
 	ok             bool
+	mm, mmAny      bool
+	sumZero        bool
 }
 
 func (o eobs) coq() string {
@@ -227,7 +329,7 @@ func obsExpo(d any) eobs {
 		mi, ok1 := p.Min.Value()
 		ma, ok2 := p.Max.Value()
 		return eobs{scale: p.Scale, posOff: p.PositiveBucket.Offset, pos: p.PositiveBucket.Counts, negOff: p.NegativeBucket.Offset,
-			neg: p.NegativeBucket.Counts, zero: p.ZeroCount, count: p.Count, min: fnum(mi), max: fnum(ma), sum: fnum(p.Sum), ok: ok1 && ok2}
+			neg: p.NegativeBucket.Counts, zero: p.ZeroCount, count: p.Count, min: fnum(mi), max: fnum(ma), sum: fnum(p.Sum), ok: true, mm: ok1 && ok2, mmAny: ok1 || ok2, sumZero: p.Sum == 0}
 	case metricdata.ExponentialHistogram[int64]:
 		k := pickEmpty(len(h.DataPoints), func(i int) int { return h.DataPoints[i].Attributes.Len() })
 		if k < 0 {
@@ -237,7 +339,7 @@ func obsExpo(d any) eobs {
 		mi, ok1 := p.Min.Value()
 		ma, ok2 := p.Max.Value()
 		return eobs{scale: p.Scale, posOff: p.PositiveBucket.Offset, pos: p.PositiveBucket.Counts, negOff: p.NegativeBucket.Offset,
-			neg: p.NegativeBucket.Counts, zero: p.ZeroCount, count: p.Count, min: inum(mi), max: inum(ma), sum: inum(p.Sum), ok: ok1 && ok2}
+			neg: p.NegativeBucket.Counts, zero: p.ZeroCount, count: p.Count, min: inum(mi), max: inum(ma), sum: inum(p.Sum), ok: true, mm: ok1 && ok2, mmAny: ok1 || ok2, sumZero: p.Sum == 0}
 	}
 	return eobs{}
 }
@@ -409,6 +511,9 @@ func genBounds(r *vgen.Rand) []float64 {
 			out = append(out, b)
 		}
 		return out
+	case 6: // infinite boundaries at the ends (valid: strictly increasing)
+		b := []float64{math.Inf(-1), -1, 0, 2.5, math.Inf(1)}
+		return b[r.Intn(2) : 4+r.Intn(2)]
 	case 4: // around zero, with subnormals
 		return []float64{-1, -math.SmallestNonzeroFloat64, 0, math.SmallestNonzeroFloat64, 0x1p-1022, 1}
 	case 5: // integers (for int64 instruments)
@@ -494,7 +599,7 @@ func main() {
 	r := vgen.NewRand(o.Seed)
 	otel.SetErrorHandler(otel.ErrorHandlerFunc(func(error) {}))
 	otel.SetLogger(logr.Discard())
-	w := vgen.NewWriter(o.Out, "C07.Model C07.Spec C07.Proofs C07.Corr", "case", 96)
+	w := vgen.NewWriter(o.Out, "C07.Model C07.Spec C07.Proofs C07.Corr", "case", 40)
 	w.Rule = "validation probes, explicit histograms (boundary lists incl. empty/single/dense, values at and next to boundaries), " +
 		"exponential histogram sequences over (MaxSize,MaxScale) in {1,2,3,4,20,160}x{-10,-1,0,1,8,20} (subnormals, powers of two and neighbours, " +
 		"huge dynamic range, negatives, zeros, ascending/descending orders, int64 and float64 instruments, delta and cumulative with several collects), " +
@@ -561,7 +666,8 @@ func main() {
 		}
 	}
 	for _, b := range [][]float64{{}, {1}, {1, 1}, {1, 2}, {2, 1}, {1, 2, 2}, {1, 2, 3}, {3, 2, 1}, {1, 3, 2}, {-1, 0, math.SmallestNonzeroFloat64},
-		{0, math.Copysign(0, -1)}, {math.Copysign(0, -1), 0}, {1, math.Nextafter(1, 2)}, {math.Nextafter(1, 2), 1}} {
+		{0, math.Copysign(0, -1)}, {math.Copysign(0, -1), 0}, {1, math.Nextafter(1, 2)}, {math.Nextafter(1, 2), 1},
+		{math.Inf(-1), math.Inf(1)}, {math.Inf(1), math.Inf(1)}, {math.Inf(1), 1}, {math.MaxFloat64, math.Inf(1)}, {math.Inf(-1)}} {
 		for mode := 0; mode < 3; mode++ {
 			addBoundsValid(b, mode, "bounds-validate")
 		}
@@ -588,6 +694,12 @@ func main() {
 	// in the following cycle "h" is written into memory that held richer data (negatives, zeros,
 	// wide windows, min/max-less points, more data points).
 	reuse := false
+	ikind := 0         // instrument kind of "h" for the next scenario (kindNames)
+	noMinMax := false  // NoMinMax stream: extrema must be absent
+	cancelled := false // record under an already cancelled context
+	auxMode := 0       // neighbour "a": 0 same aggregation kind (NoMinMax), 1 default aggregation, 2 a Counter (Sum in the slot)
+	scribble := false  // overwrite the caller's boundary slice after construction and every returned slice after observing it
+	nonFinite := false // interleave NaN / +-Inf measurements (the exponential histogram must ignore them)
 	noise := func(in inst, k int) {
 		if in.rm == nil || k%2 == 1 {
 			return
@@ -595,38 +707,113 @@ func main() {
 		fs := []float64{-1e-3, -7, -1e9, 0, 0, 0.25, 3, 1e12, -2.5, math.Copysign(0, -1)}
 		is := []int64{-1, -70, -1000000000, 0, 0, 2, 3, 1000000000000, -25, 0}
 		for j := range fs {
-			if in.af != nil {
+			switch {
+			case in.ac != nil:
+				in.ac.Add(ctx, int64(j+1))
+			case in.af != nil:
 				in.af.Record(ctx, fs[j])
-				if j%2 == 0 {
-					in.hf.Record(ctx, fs[j], attrX)
-				}
-			} else {
+			default:
 				in.ai.Record(ctx, is[j])
-				if j%2 == 0 {
-					in.hi.Record(ctx, is[j], attrX)
+			}
+			if j%2 == 0 && k%4 == 0 || j == 0 {
+				if in.isInt {
+					in.recI(is[j], true)
+				} else {
+					in.recF(fs[j], true)
 				}
 			}
 		}
 	}
 
-	// ---------- explicit histograms ----------
-	addExplicit := func(bounds []float64, mode int, cumul, isInt bool, fb [][]float64, ib [][]int64, kind string) {
-		desc := map[string]any{"op": "explicit", "bounds": hexes(bounds), "mode": mode, "cumulative": cumul, "int64": isInt}
-		guard(desc, func() {
-			var s setup
-			switch {
-			case mode == 2 && len(bounds) > 0:
-				s = setup{instBound: bounds}
-			case mode == 1:
-				s = setup{agg: metric.AggregationExplicitBucketHistogram{Boundaries: bounds}, viaReader: true}
-			default:
-				s = setup{agg: metric.AggregationExplicitBucketHistogram{Boundaries: bounds}}
+	knobs := func() {
+		ikind = vgen.Pick(r, []int{0, 0, 0, 1, 2, 3, 4, 5})
+		noMinMax = r.Chance(1, 5)
+		cancelled = r.Chance(1, 6)
+		auxMode = vgen.Pick(r, []int{0, 0, 1, 2})
+		scribble = r.Bool()
+		nonFinite = r.Chance(1, 4)
+	}
+	resetKnobs := func() {
+		reuse, ikind, noMinMax, cancelled, auxMode, scribble, nonFinite = false, 0, false, false, 0, false, false
+	}
+
+	// Fields a stream does not report must be absent: Min/Max undefined under NoMinMax, Sum = 0 for the
+	// instrument kinds whose sum is not collected.  Checked here; Coq is told NoNum and skips the field.
+	absent := func(mm, mmAny, sumZero bool, mn, mx, sm *string, cd any) bool {
+		if noMinMax {
+			if mmAny {
+				w.Violation("NoMinMax stream reports a minimum or maximum", cd)
+				return false
 			}
-			s.cumul, s.isInt = cumul, isInt
-			s.reuse = reuse
-			s.auxAgg = metric.AggregationExplicitBucketHistogram{Boundaries: []float64{-100, -1, 0, 1, 2, 3, 4, 5, 6, 7, 8, 1e6}, NoMinMax: true}
-			desc["reuse_rm"] = reuse
+			*mn, *mx = "NoNum", "NoNum"
+		} else if !mm {
+			w.Violation("data point without min/max although NoMinMax is not set", cd)
+			return false
+		}
+		if kindNoSum(ikind) {
+			if !sumZero {
+				w.Violation("instrument kind whose sum is not collected reports a non-zero sum", cd)
+				return false
+			}
+			*sm = "NoNum"
+		}
+		return true
+	}
+	defaultBounds := []float64{0, 5, 10, 25, 50, 75, 100, 250, 500, 750, 1000, 2500, 5000, 7500, 10000}
+	junkF := func(xs []float64) {
+		for i := range xs {
+			xs[i] = math.NaN()
+		}
+	}
+	junkU := func(xs []uint64) {
+		for i := range xs {
+			xs[i] = 0xdeadbeef
+		}
+	}
+
+	// ---------- explicit histograms ----------
+	// mode 0 view, 1 reader aggregation selector, 2 instrument option (Histogram kind only), 3 nothing: default boundaries
+	addExplicit := func(bounds []float64, mode int, cumul, isInt bool, fb [][]float64, ib [][]int64, kind string) {
+		if mode == 2 && (ikind != 0 || len(bounds) == 0 || noMinMax) {
+			mode = 0
+		}
+		if mode == 3 && (ikind != 0 || noMinMax) {
+			mode = 0 // only a Histogram instrument defaults to a histogram aggregation
+		}
+		if mode == 3 {
+			bounds = defaultBounds
+		}
+		desc := map[string]any{"op": "explicit", "bounds": hexes(bounds), "mode": mode, "cumulative": cumul, "int64": isInt,
+			"kind": kindNames[ikind], "no_min_max": noMinMax, "reuse_rm": reuse, "aux": auxMode, "scribble": scribble, "cancelled_ctx": cancelled}
+		guard(desc, func() {
+			given := append([]float64{}, bounds...) // what the SDK is handed; scribbled over afterwards
+			var s setup
+			switch mode {
+			case 3:
+				s = setup{}
+			case 2:
+				s = setup{instBound: given}
+			case 1:
+				s = setup{agg: metric.AggregationExplicitBucketHistogram{Boundaries: given, NoMinMax: noMinMax}, viaReader: true}
+			default:
+				s = setup{agg: metric.AggregationExplicitBucketHistogram{Boundaries: given, NoMinMax: noMinMax}}
+			}
+			s.cumul, s.isInt, s.reuse, s.kind, s.cancelled = cumul, isInt, reuse, ikind, cancelled
+			switch auxMode {
+			case 0:
+				s.auxAgg = metric.AggregationExplicitBucketHistogram{Boundaries: []float64{-100, -1, 0, 1, 2, 3, 4, 5, 6, 7, 8, 1e6}, NoMinMax: !noMinMax}
+			case 1:
+				s.auxAgg = metric.AggregationBase2ExponentialHistogram{MaxSize: 160, MaxScale: 20} // other data type in the slot
+			default:
+				s.auxSum = true
+			}
+			if scribble {
+				s.junkLater = given
+			}
 			in := newInst(s)
+			if scribble {
+				junkF(given)
+			}
 			var allF []float64
 			var allI []int64
 			nb := len(fb)
@@ -637,7 +824,7 @@ func main() {
 				noise(in, k)
 				if isInt {
 					for _, v := range ib[k] {
-						in.hi.Record(ctx, v)
+						in.recI(v, false)
 					}
 					if cumul {
 						allI = append(allI, ib[k]...)
@@ -646,7 +833,7 @@ func main() {
 					}
 				} else {
 					for _, v := range fb[k] {
-						in.hf.Record(ctx, v)
+						in.recF(v, false)
 					}
 					if cumul {
 						allF = append(allF, fb[k]...)
@@ -662,11 +849,14 @@ func main() {
 				ob := obsExplicit(d)
 				cd := map[string]any{"config": desc, "collect": k}
 				if !ob.ok {
-					w.Violation("no explicit histogram data point with min/max after recording", cd)
+					w.Violation("no explicit histogram data point after recording", cd)
 					continue
 				}
 				if !sameFloats(ob.bounds, bounds) {
 					w.Violation("data point boundaries differ from the configured (valid) boundaries", cd)
+					continue
+				}
+				if !absent(ob.mm, ob.mmAny, ob.sumZero, &ob.min, &ob.max, &ob.sum, cd) {
 					continue
 				}
 				vals := fnums(allF)
@@ -677,14 +867,19 @@ func main() {
 					cd["values"] = hexes(allF)
 				}
 				w.Tally(fmt.Sprintf("explicit:int=%v:cumul=%v:bounds=%d", isInt, cumul, min(len(bounds), 3)))
+				w.Tally("explicit:kind=" + kindNames[ikind])
 				w.Add(vgen.App("CExplicit", fnums(bounds), vals, ob.coq()), cd, kind, n >= 2)
+				if scribble { // the caller may do what it likes with what a collect returned
+					junkF(ob.bounds)
+					junkU(ob.counts)
+				}
 			}
 		})
 	}
 	addExplicit([]float64{0, 5, 10}, 0, false, false, [][]float64{{5, -3, 7, 11, 0, 10}}, nil, "corpus-explicit")
 	addExplicit([]float64{}, 0, true, false, [][]float64{{1, 2}, {3}}, nil, "corpus-explicit")
 	addExplicit([]float64{1 << 52}, 0, false, true, nil, [][]int64{{1 << 52, 1<<52 + 1, 1<<52 - 1, -(1 << 53), 1 << 53}}, "corpus-explicit")
-	for i := 0; i < o.Count(330, 4000); i++ {
+	for i := 0; i < o.Count(280, 4000); i++ {
 		bounds := genBounds(r)
 		isInt := r.Chance(1, 4)
 		cumul := r.Bool()
@@ -731,17 +926,67 @@ func main() {
 			}
 			w.Tally("explicit:reused-resourcemetrics")
 		}
-		addExplicit(bounds, r.Intn(3), cumul, isInt, fb, ib, "explicit")
-		reuse = false
+		switch r.Intn(12) {
+		case 0: // all measurements equal
+			for k := range fb {
+				for j := range fb[k] {
+					fb[k][j] = fb[0][0]
+				}
+			}
+			for k := range ib {
+				for j := range ib[k] {
+					ib[k][j] = ib[0][0]
+				}
+			}
+		case 1: // a very long batch (counts well above one byte)
+			if i%8 == 0 {
+				if isInt {
+					ib[0] = genInts(r, 1500)
+				} else {
+					long := make([]float64, 1500)
+					for j := range long {
+						long[j] = nearBounds(r, bounds, genValue(r, 6))
+						if math.IsInf(long[j], 0) {
+							long[j] = 1
+						}
+					}
+					fb[0] = long
+				}
+			}
+		}
+		for k := range fb { // boundaries may be infinite, measurements are finite
+			for j, v := range fb[k] {
+				if math.IsInf(v, 0) {
+					fb[k][j] = math.Copysign(math.MaxFloat64, v)
+				}
+			}
+		}
+		knobs()
+		mode := r.Intn(3)
+		if len(bounds) == 15 && bounds[0] == 0 && r.Bool() {
+			mode = 3 // no view, no selector, no option: the default boundaries
+		}
+		addExplicit(bounds, mode, cumul, isInt, fb, ib, "explicit")
+		resetKnobs()
 	}
 
 	// ---------- exponential histograms ----------
 	addExpo := func(ms, mxs int32, viaReader, cumul, isInt bool, fb [][]float64, ib [][]int64, kind string) {
-		desc := map[string]any{"op": "expo", "maxsize": ms, "maxscale": mxs, "cumulative": cumul, "int64": isInt, "via_reader": viaReader}
+		desc := map[string]any{"op": "expo", "maxsize": ms, "maxscale": mxs, "cumulative": cumul, "int64": isInt, "via_reader": viaReader,
+			"kind": kindNames[ikind], "no_min_max": noMinMax, "reuse_rm": reuse, "aux": auxMode, "scribble": scribble, "cancelled_ctx": cancelled,
+			"non_finite_interleaved": nonFinite && !isInt}
 		guard(desc, func() {
-			desc["reuse_rm"] = reuse
-			in := newInst(setup{agg: metric.AggregationBase2ExponentialHistogram{MaxSize: ms, MaxScale: mxs}, viaReader: viaReader, cumul: cumul, isInt: isInt,
-				reuse: reuse, auxAgg: metric.AggregationBase2ExponentialHistogram{MaxSize: 160, MaxScale: 20, NoMinMax: true}})
+			s := setup{agg: metric.AggregationBase2ExponentialHistogram{MaxSize: ms, MaxScale: mxs, NoMinMax: noMinMax}, viaReader: viaReader,
+				cumul: cumul, isInt: isInt, reuse: reuse, kind: ikind, cancelled: cancelled}
+			switch auxMode {
+			case 0:
+				s.auxAgg = metric.AggregationBase2ExponentialHistogram{MaxSize: 160, MaxScale: 20, NoMinMax: !noMinMax}
+			case 1:
+				s.auxAgg = nil // default: explicit-bucket histogram in the slot
+			default:
+				s.auxSum = true
+			}
+			in := newInst(s)
 			var allF []float64
 			var allI []int64
 			prev := vgen.None
@@ -753,7 +998,7 @@ func main() {
 				noise(in, k)
 				if isInt {
 					for _, v := range ib[k] {
-						in.hi.Record(ctx, v)
+						in.recI(v, false)
 					}
 					if cumul {
 						allI = append(allI, ib[k]...)
@@ -761,8 +1006,14 @@ func main() {
 						allI = ib[k]
 					}
 				} else {
-					for _, v := range fb[k] {
-						in.hf.Record(ctx, v)
+					for j, v := range fb[k] {
+						if nonFinite { // expoHistogram.measure ignores NaN and infinities: they must leave no trace
+							in.recF([]float64{math.NaN(), math.Inf(1), math.Inf(-1)}[(j+k)%3], false)
+						}
+						in.recF(v, false)
+					}
+					if nonFinite {
+						in.recF(math.Inf(1), false)
 					}
 					if cumul {
 						allF = append(allF, fb[k]...)
@@ -778,9 +1029,13 @@ func main() {
 				ob := obsExpo(d)
 				cd := map[string]any{"config": desc, "collect": k}
 				if !ob.ok {
-					w.Violation("no exponential histogram data point with min/max after recording (valid configuration)", cd)
+					w.Violation("no exponential histogram data point after recording (valid configuration)", cd)
 					continue
 				}
+				if !absent(ob.mm, ob.mmAny, ob.sumZero, &ob.min, &ob.max, &ob.sum, cd) {
+					continue
+				}
+				w.Tally("expo:kind=" + kindNames[ikind])
 				vals := fnums(allF)
 				if isInt {
 					vals = inums(allI)
@@ -817,6 +1072,10 @@ func main() {
 				if cumul {
 					prev = vgen.Some(vgen.Z(int64(ob.scale)))
 				}
+				if scribble { // the caller may do what it likes with what a collect returned
+					junkU(ob.pos)
+					junkU(ob.neg)
+				}
 			}
 		})
 	}
@@ -844,9 +1103,25 @@ func main() {
 	addExpo(20, 4, false, false, false, [][]float64{{-1, 0.5, 7, 100}, {0}, {4, 8}, {2, -2}}, nil, "corpus-expo-reuse")
 	reuse = false
 
+	// scaleChange's iteration cap: exactly 30 shifts (scale 20 -> -10) in one step, and one more than fits
+	addExpo(3, 20, false, false, false, [][]float64{{math.SmallestNonzeroFloat64, math.MaxFloat64}}, nil, "corpus-expo")
+	addExpo(2, 20, false, false, false, [][]float64{{1, math.MaxFloat64}}, nil, "corpus-expo")
+	addExpo(2, 20, false, false, false, [][]float64{{math.MaxFloat64, math.SmallestNonzeroFloat64}}, nil, "corpus-expo")
+	addExpo(1, 20, false, false, false, [][]float64{{1.5, 3}, {0.75}}, nil, "corpus-expo")
+	// every instrument kind, NoMinMax, non-finite measurements, a cancelled context, foreign data in the reused slot
+	for kd := range kindNames {
+		for _, isInt := range []bool{false, true} {
+			ikind, reuse, auxMode, scribble, nonFinite = kd, true, kd%3, true, true
+			noMinMax, cancelled = kd%2 == 1, kd == 2
+			addExpo(4, 3, false, kd%2 == 0, isInt, [][]float64{{-1, 0, 5, 1e6}, {3}, {0}}, [][]int64{{-1, 0, 5, 1000000}, {3}, {0}}, "corpus-kinds")
+			addExplicit([]float64{math.Inf(-1), 0, 5, math.Inf(1)}, kd%2, kd%2 == 1, isInt, [][]float64{{-1, 0, 5, 1e6}, {3}, {0}}, [][]int64{{-1, 0, 5, 1000000}, {3}, {0}}, "corpus-kinds")
+		}
+	}
+	resetKnobs()
+
 	sizes := []int32{1, 2, 3, 4, 20, 160}
 	scales := []int32{-10, -1, 0, 1, 8, 20}
-	nExpo := o.Count(520, 5000)
+	nExpo := o.Count(440, 5000)
 	for i := 0; i < nExpo; i++ {
 		ms := sizes[i%6]
 		mxs := scales[(i/6)%6]
@@ -881,8 +1156,30 @@ func main() {
 			}
 			w.Tally("expo:reused-resourcemetrics")
 		}
+		switch r.Intn(12) {
+		case 0: // all measurements equal
+			for k := range fb {
+				for j := range fb[k] {
+					fb[k][j] = fb[0][0]
+				}
+			}
+			for k := range ib {
+				for j := range ib[k] {
+					ib[k][j] = ib[0][0]
+				}
+			}
+		case 1: // a very long batch (only where no certified scale-20 index per value is needed)
+			if mxs <= 0 && i%4 == 0 {
+				if isInt {
+					ib[0] = genInts(r, 800)
+				} else {
+					fb[0] = genSeq(r, 800)
+				}
+			}
+		}
+		knobs()
 		addExpo(ms, mxs, r.Chance(1, 4), cumul, isInt, fb, ib, "expo")
-		reuse = false
+		resetKnobs()
 	}
 
 	// ---------- single-value bucket probes ----------
